@@ -59,6 +59,7 @@ class Family:
     extra_traces: Callable[[str, int], list[dict]] | None = None   # e.g. harvested / random programs
     clauses: set[str] | None = None    # clause names that belong to this property (None = all)
     directed: str | None = None        # corpus/<name>.json: directed scenarios beyond the emitted bounds
+    eager_pass: bool = True            # thorough tier: replay a sample again with asyncio.eager_task_factory
 
 
 def run_family(fam: Family, tier: str, seed: int) -> int:
@@ -184,6 +185,29 @@ def run_part(fam: Family, tier: str, seed: int, rep: core.Report) -> None:
                               "src": t.get("src", "extra")})
             results.append({"events": t["events"], "final": None, "flags": t.get("flags", {})})
             traces.append({"id": len(scenarios) - 1, "events": t["events"], "params": t.get("params")})
+
+    if fam.eager_pass and tier == "thorough" and scenarios:
+        # the same programs under the eager task factory (tasks created by the harness start eagerly;
+        # anyio itself never starts group children eagerly): verdicts only, no conformance comparison
+        pick = list(range(len(scenarios)))
+        rng.shuffle(pick)
+        pick = pick[:4000]
+        by_kw2: dict[str, list[int]] = {}
+        for i in pick:
+            by_kw2.setdefault(json.dumps(scenarios[i]["kw"], sort_keys=True), []).append(i)
+        n_eager = 0
+        for kwj, idxs in by_kw2.items():
+            kw = dict(json.loads(kwj), eager=True)
+            res = replay.pmap(fam.fam_module, "run_scenario", [scenarios[i]["scn"] for i in idxs], **kw)
+            for i, r in zip(idxs, res):
+                if "machinery_error" in r:
+                    raise tlc.TLCError("eager replay failed: " + r["machinery_error"])
+                scenarios.append({"scn": scenarios[i]["scn"], "kw": kw, "fin": None,
+                                  "src": scenarios[i]["src"] + "+eager"})
+                results.append(r)
+                traces.append({"id": len(scenarios) - 1, "events": r["events"], "params": r.get("params")})
+                n_eager += 1
+        rep.extra["eager_task_factory_replays"] = rep.extra.get("eager_task_factory_replays", 0) + n_eager
 
     verdicts = tlc.validate_traces(fam.t_module, traces, tag=f"{fam.prop}-{fam.mc_module}")
     rep.traces += len(verdicts)
